@@ -254,7 +254,15 @@ func (g *DefaultValidator) validateResumePolicy(resume experimentsv1beta1.Resume
 
 func (g *DefaultValidator) validateParameters(parameters []experimentsv1beta1.ParameterSpec) field.ErrorList {
 	var allErrs field.ErrorList
+	parameterNames := make(map[string]bool)
 	for i, param := range parameters {
+
+		// Check if parameter names are set and not duplicated
+		if param.Name == "" || parameterNames[param.Name] {
+			allErrs = append(allErrs, field.Invalid(parametersPath.Index(i).Child("name"), param.Name,
+				"name must be specified and can't be duplicated in spec.parameters"))
+		}
+		parameterNames[param.Name] = true
 
 		if param.ParameterType != experimentsv1beta1.ParameterTypeInt &&
 			param.ParameterType != experimentsv1beta1.ParameterTypeDouble &&
